@@ -24,7 +24,7 @@ logging.getLogger("onnx_ir").setLevel(logging.ERROR)
 PROPERTY = "C11"
 LEVEL = "exploration"
 TIERS = {
-    "quick": {"wall": 25, "optimize_wall": 10, "chunk": 200, "shrink_budget": 500, "shrink_wall": 60},
+    "quick": {"max_runs": 12000, "optimize_runs": 2400, "wall": 420, "optimize_wall": 180, "chunk": 200, "shrink_budget": 500, "shrink_wall": 60},
     "thorough": {"wall": 600, "optimize_wall": 120, "chunk": 1000, "shrink_budget": 1000, "shrink_wall": 240},
 }
 RULE = (
